@@ -39,7 +39,7 @@ def reference(branches, join, items, mode):
 class C08(Check):
     ID = 'C08'
     LEVEL = 'exploration'
-    BUDGET = {'quick': 30, 'thorough': 300}
+    BUDGET = {'quick': 30, 'thorough': 240}
     RULE = ('case = (2..4 branch pipelines from the typed generator - streaming, filtering, reducing, multiplexed-only stateful operators, nested windows / groups and nested '
             'tee_map in keyed modes -, join in zip/merge/combine_latest, mode: plain observable, one multiplexed key, or keyed under group_by / roll (w != s, w == s) / split / '
             'time_split where the join slots are reused by successive key lifetimes; input 0..30 ints). Branches are re-run separately in the same mode with a Subject-driven '
@@ -52,7 +52,7 @@ class C08(Check):
     REQUIRED_OBSERVED = ['tuples_compared', 'branch_traces_recorded', 'lifetimes_checked']
 
     def generate(self, rng, tier, shard, nshards):
-        n = 5000 if tier == 'quick' else 30000
+        n = 5000 if tier == 'quick' else 10 ** 7
         names = list(CTX)
         for k in range(n):
             ctx = names[k % len(names)]
